@@ -28,7 +28,7 @@ RULE = (
     "result that is neither empty nor everything."
 )
 ASSUMPTIONS = ["reference traversal of C05 and xpath semantics of pbt/xpath_ref.py", "trees are built attached, bottom-up"]
-FLOORS = {"trees:list-children": 0.25, "trees:index>=10": 0.05}
+FLOORS = {"trees:list-children": 0.2, "trees:index>=10": 0.05}
 
 CLASS_NAMES = ["AwareASTNode", *L.CLASS_NAMES]
 FIELD_NAMES = ["req", "opt", "items", "lst", "un", "oseq", "extra", "root", "nosuch", "v"]
@@ -362,4 +362,50 @@ def st_case(ctx: Ctx):
     })
 
 
-PARTS = [Part("trees", check_tree, strategy=st_case, quick=2400, thorough=64000)]
+def enum_deep(ctx: Ctx):
+    for shape in ("req", "items", "lst", "mixed"):
+        for factor in ((2, 4) if ctx.thorough else (2,)):
+            for variant in range(4):
+                yield {"shape": shape, "factor": factor, "variant": variant}
+
+
+def check_deep(data: dict, lab: Labels) -> None:
+    """an attached chain far deeper than the recursion limit: dfs / bfs / gather still enumerate it"""
+    import sys
+
+    from pyoak.legacy.match.xpath import ASTXpath
+
+    with warnings.catch_warnings():
+        warnings.simplefilter("ignore", DeprecationWarning)
+        nodes = L.build_chain(sys.getrecursionlimit() * data["factor"] + 37, data["shape"])
+        root, leaf = nodes[0], nodes[-1]
+        lab.tag("deep-chain")
+        lab.sample_class = "deep"
+        v = data["variant"]
+        skip = bool(v % 2)
+        mid = nodes[len(nodes) // 2]
+        below = {id(n) for n in nodes[len(nodes) // 2 + 1:]}
+        if v < 2:
+            exp = nodes[1:] if skip else nodes
+            kw: dict = {}
+        else:
+            exp = [n for n in (nodes[1:] if skip else nodes) if id(n) not in below]
+            kw = {"prune": lambda n: n is mid}
+
+        def same(name: str, got: list, want: list) -> None:
+            require(len(got) == len(want) and all(g is w for g, w in zip(got, want)), name,
+                    f"{len(got)} nodes, expected {len(want)}")
+
+        same("legacy-dfs-deep", list(root.dfs(skip_self=skip, **kw)), exp)
+        same("legacy-dfs-bottom-up-deep", list(root.dfs(skip_self=skip, bottom_up=True, **kw)), exp[::-1])
+        same("legacy-bfs-deep", list(root.bfs(skip_self=skip, **kw)), exp)
+        same("legacy-gather-deep", list(root.gather(L.cls("LLeaf"))), [leaf])
+        require(ASTXpath("//LLeaf").match(leaf) is True and ASTXpath("//LLeaf").match(root) is False, "legacy-xpath-match", "deep")
+        lab.nontrivial = True
+        for n in nodes:
+            n.detach_self()
+
+
+PARTS = [Part("trees", check_tree, strategy=st_case, quick=2400, thorough=64000),
+         Part("deep", check_deep, enumerate=enum_deep,
+              exhaustive_note="4 chain shapes x depth 2x (thorough: and 4x) the recursion limit x {plain, skip_self, prune, both}")]
